@@ -112,7 +112,10 @@ ASSUMPTIONS = [
 ORIGINS = [("http", "a.test", 80), ("http", "a.test", 8080), ("https", "a.test", 443), ("http", "b.test", 80),
            ("https", "b.test", 8443), ("http", "sub.a.test", 80), ("http", "127.0.0.1", 80),
            ("http", "sib.a.test", 80), ("http", "x.sub.a.test", 80), ("https", "sub.a.test", 443),
-           ("http", "a.test", 9090)]
+           ("http", "a.test", 9090),
+           # same host and the same *explicit* port as origin 1, other scheme: an origin change that neither the host nor the
+           # port shows
+           ("https", "a.test", 8080)]
 DEFAULT_PORT = {"http": 80, "https": 443}
 NETRC = {"a.test": ("na", "", "npa"), "b.test": ("nb", "", "npb")}
 REDIRECTS = (301, 302, 303, 307, 308)
